@@ -1,7 +1,7 @@
 (* Properties/C11.v -- Encoding is total and failures are classified correctly (the parts that are theorems). *)
 From Coq Require Import Arith NArith List Bool.
 From DM Require Import Generated.Symbols Generated.ModeTables Model.Outcome Model.SymbolList Model.Planner Model.Enc
-  Proofs.EncLocal Proofs.EncTop.
+  Proofs.EncLocal Proofs.EncTop Proofs.EncAscii.
 Import ListNotations.
 Local Open Scope N_scope.
 
@@ -57,6 +57,14 @@ Theorem C11_panic_source : forall optimize_fn e p, codewords optimize_fn e = Pan
     (mkenc (e_data e) (e_input e) (e_encodation e) plan (e_new_mode e) (e_cw e) (e_modes e) (e_symbols e)) 0 = Panic p.
 Proof. exact codewords_panic_source. Qed.
 Print Assumptions C11_panic_source.
+
+(* (iv) totality of the whole entry point in the first case: under the plan "stay in ASCII" no assertion of the
+   main loop can fire -- every byte string, every list, value or error, never a panic *)
+Theorem C11_ascii_plan_total : forall optimize_fn data symbols modes,
+  optimize_fn data 0 symbols modes = Ok (Some [(0, Ascii)]) ->
+  no_panic (encode_data_internal optimize_fn data symbols None modes false false).
+Proof. exact ascii_plan_total. Qed.
+Print Assumptions C11_ascii_plan_total.
 
 (* NOT a theorem here: that the main loop's assertions never fire, i.e. that the encoder reaches every switch
    position the planner chose (planner/encoder agreement).  It is decided per case by running model and
